@@ -16,7 +16,10 @@ stream IDs `uint64`, deadlines `int64` — evaluated by the driver on every stat
 * `encode_deterministic`: `canon a = canon b → encode a = encode b` — two nodes with the same keyspace produce the same bytes;
 * `encode_injective`, `encode_injective_on_canon`, `same_bytes_same_keyspace`: the bytes determine the keyspace.
 
-Not proved: `commands_agree_statement` (replies of every command agree on the loaded keyspace; stated, future item);
+`commands_agree_statement` (replies of EVERY command agree on the loaded keyspace) as stated below is FALSE — HRANDFIELD in
+prediction mode answers a prefix of the stored field list, which the snapshot reorders (`Snap.commands_agree_statement_false`); it is
+PROVED for every other command (`Snap.commands_agree_partial`), for programs (`Snap.restored_node_indistinguishable_partial`/`_mixed`)
+and, for all commands, at the level of the driver's verdict in checker mode (`Snap.restored_node_same_verdicts`): `Props/Equiv.lean`.
 `canon_get_exact_partial` is the fragment where the loaded value is EQUAL (strings, lists, streams). -/
 namespace Snap
 open Exec (Db Entry Value StreamId StreamEntry bytesLt sortBy insertSorted sortBytes)
@@ -264,11 +267,12 @@ theorem canon_get_exact_partial (db : Db) (hi : Inv db) (k : Bytes) (e : Entry) 
   obtain ⟨v, dl⟩ := e
   cases v <;> first | rfl | exact hv.elim
 
-/-- NOT PROVED (future item): every command of `Exec.cmdTable` answers the same on the restored keyspace as on the original one (after
-    `canonReply`, which sorts the replies whose order depends on Go map iteration).  What is proved is the state-level statement
-    `snapshot_roundtrip_observable`; lifting it to replies needs a congruence of every executor under `ValEquiv` (permuted set/hash
-    presentations, a differently shaped sorted-set tree with the same member sequence), which `Props/C06Table.c06_congruence` gives only
-    for keyspaces whose lookups are EQUAL. -/
+/-- every command of `Exec.cmdTable` answers the same on the restored keyspace as on the original one (after `canonReply`, which sorts
+    the replies whose order depends on Go map iteration).  AS STATED (all commands, any environment) THIS IS FALSE:
+    `Snap.commands_agree_statement_false` (HRANDFIELD without an acceptable observation answers a prefix of the stored field list).
+    Proved for all commands but HRANDFIELD: `Snap.commands_agree_partial`, from the congruence of every executor under `ValEquiv`
+    (`Exec.Equiv.exec_respects_equiv_partial`, `Props/Equiv.lean`); for all commands in checker mode:
+    `Snap.restored_node_same_verdicts`. -/
 def commands_agree_statement : Prop :=
   ∀ (env : Exec.Env) (db : Db) (args : List Bytes), Inv db → Bounded db →
     Exec.replyAgrees (Exec.canonReply (Exec.lower (args.headD [])) (Exec.exec env (canon db) args).1)
